@@ -12,6 +12,7 @@ import (
 	"github.com/polynetwork/poly/common/config"
 	cstates "github.com/polynetwork/poly/core/states"
 	scom "github.com/polynetwork/poly/native/service/cross_chain_manager/common"
+	hscommon "github.com/polynetwork/poly/native/service/header_sync/common"
 	"github.com/polynetwork/poly/native/service/utils"
 	"polyverif/internal/hx"
 )
@@ -24,7 +25,10 @@ import (
 //	height <h>                                  height of the following blocks                          -> ok
 //	reg <chain> <router> | unreg <chain>        plant / remove a side-chain record                      -> ok
 //	black|white n=<nonce> s=<signers> <chain>   BlackChain / WhiteChain signed by <signers>             -> ok | reject:<class>
+//	ethsetup n=<nonce> chain=<c> m=<extra>,<extra>,..   build a synthetic Ethereum state whose contract storage commits to the
+//	       given messages and install a header with that state root through the real eth SyncGenesisHeader   -> ok | reject
 //	import n=<nonce> th=<txhash> s=<signers> rl=<id|bad> src=<chain> h=<height> px=<proof> hd=<header> ex=<extra>
+//	       pv=<0|1>  (the generator's claim: px is a valid eth storage proof of ex at height h of an eth chain set up by ethsetup)
 //	       dec=0 | dec=1 <txHash> <crossChainID> <fromContract> <toChain> <toContract> <method> <args>
 //	    -> <outcome> done=<0|1|-> req=<value|-> xh=<cross hashes|-> new=<number of new request keys>
 //
@@ -38,6 +42,7 @@ type ccmFam struct {
 	black    map[uint64]bool
 	reg      map[uint64]uint64
 	mainNet  bool
+	eth      map[uint64]*ethState // synthetic Ethereum state installed per chain (ethsetup)
 }
 
 func init() { families["ccm"] = func() hx.Family { return &ccmFam{} } }
@@ -48,6 +53,7 @@ func (f *ccmFam) Reset(r *hx.Run) {
 	f.black = map[uint64]bool{}
 	f.reg = map[uint64]uint64{}
 	f.mainNet = true
+	f.eth = map[uint64]*ethState{}
 }
 
 func kv(tok string) (string, string) {
@@ -128,6 +134,7 @@ func parseImport(w *world, op []string) (*importOp, bool) {
 			o.hdr = hx.UnHex(v)
 		case "ex":
 			o.extra = hx.UnHex(v)
+		case "pv":
 		case "dec":
 			o.dec = v == "1"
 			i++
@@ -236,6 +243,40 @@ func (f *ccmFam) Exec(r *hx.Run, op []string) string {
 			r.Viol("C21:"+op[0]+"-witness", fmt.Sprintf("%sChain(%d) signed by [%s]: result %v (the operator witness decides)", op[0], chain, s, err))
 		}
 		return out
+	case "ethsetup":
+		var nonce uint32
+		var chain uint64
+		var extras [][]byte
+		for _, t := range op[1:] {
+			k, v := kv(t)
+			switch k {
+			case "n":
+				nonce = uint32(u64(v))
+			case "chain":
+				chain = u64(v)
+			case "m":
+				for _, e := range strings.Split(v, ",") {
+					extras = append(extras, hx.UnHex(e))
+				}
+			}
+		}
+		es, err := buildEthState(chain, extras)
+		if err != nil {
+			return "bad-op:" + err.Error()
+		}
+		gb, err := ethGenesisWithRoot(es.root)
+		if err != nil {
+			return "bad-op:" + err.Error()
+		}
+		tx := mkTx(nonce, utils.HeaderSyncContractAddress, hscommon.SYNC_GENESIS_HEADER, genesisParam(chain, gb))
+		before := w.writeSet()
+		_, _, err = w.exec(tx, w.signerAddrs("op"))
+		logKeys(diffKeys(before, w.writeSet()))
+		if err != nil {
+			return "reject"
+		}
+		f.eth[chain] = es
+		return "ok"
 	case "import":
 		return f.doImport(r, op)
 	}
@@ -443,8 +484,8 @@ type msg struct {
 	dec bool
 }
 
-func (f *ccmFam) importOp(nonce uint32, signers, rl string, src uint64, h uint32, proof, hdr []byte, m *msg) string {
-	base := fmt.Sprintf("import n=%d th=@ s=%s rl=%s src=%d h=%d px=%s hd=%s ex=%s", nonce, signers, rl, src, h, hx.Hex(proof), hx.Hex(hdr), hx.Hex(m.raw))
+func (f *ccmFam) importOp(nonce uint32, signers, rl string, src uint64, h uint32, proof, hdr []byte, m *msg, pv int) string {
+	base := fmt.Sprintf("import n=%d th=@ s=%s rl=%s src=%d h=%d px=%s hd=%s ex=%s pv=%d", nonce, signers, rl, src, h, hx.Hex(proof), hx.Hex(hdr), hx.Hex(m.raw), pv)
 	if m.dec {
 		base += fmt.Sprintf(" dec=1 %s %s %s %d %s %s %s", hx.Hex(m.p.TxHash), hx.Hex(m.p.CrossChainID), hx.Hex(m.p.FromContractAddress),
 			m.p.ToChainID, hx.Hex(m.p.ToContractAddress), hx.Hex([]byte(m.p.Method)), hx.Hex(m.p.Args))
@@ -501,24 +542,6 @@ func (f *ccmFam) Gen(r *hx.Run) {
 			}
 			return o
 		}
-		regOne := func(ch uint64) {
-			var rt uint64
-			switch rng.Intn(10) {
-			case 0, 1, 2, 3, 4, 5:
-				rt = 0
-			case 6, 7:
-				rt = 2
-			default:
-				rt = routers[rng.Intn(len(routers))]
-			}
-			chainRouter[ch] = rt
-			r.Do(fmt.Sprintf("reg %d %d", ch, rt))
-		}
-		for _, u := range universe {
-			if rng.Chance(3, 4) {
-				regOne(u)
-			}
-		}
 		// message pool
 		var pool []*msg
 		for i := 0; i < 4; i++ {
@@ -542,6 +565,35 @@ func (f *ccmFam) Gen(r *hx.Run) {
 				pool = append(pool, &msg{raw: bad, dec: false})
 			}
 		}
+		ethSetup := map[uint64]bool{}
+		regOne := func(ch uint64) {
+			var rt uint64
+			switch rng.Intn(10) {
+			case 0, 1, 2, 3, 4, 5:
+				rt = 0
+			case 6, 7:
+				rt = 2
+			default:
+				rt = routers[rng.Intn(len(routers))]
+			}
+			chainRouter[ch] = rt
+			r.Do(fmt.Sprintf("reg %d %d", ch, rt))
+			if rt == 2 && !ethSetup[ch] && rng.Chance(3, 4) {
+				var ms []string
+				for _, m := range pool {
+					ms = append(ms, hx.Hex(m.raw))
+				}
+				nonce++
+				if r.Do(fmt.Sprintf("ethsetup n=%d chain=%d m=%s", nonce, ch, strings.Join(ms, ","))) == "ok" {
+					ethSetup[ch] = true
+				}
+			}
+		}
+		for _, u := range universe {
+			if rng.Chance(3, 4) {
+				regOne(u)
+			}
+		}
 		type campaign struct {
 			src  uint64
 			h    uint32
@@ -558,7 +610,15 @@ func (f *ccmFam) Gen(r *hx.Run) {
 					voteRegs = append(voteRegs, c)
 				}
 			}
+			var ethRegs []uint64
+			for _, c := range regs {
+				if chainRouter[c] == 2 && ethSetup[c] {
+					ethRegs = append(ethRegs, c)
+				}
+			}
 			switch {
+			case len(ethRegs) > 0 && rng.Chance(2, 6):
+				src = ethRegs[rng.Intn(len(ethRegs))]
 			case len(voteRegs) > 0 && rng.Chance(4, 6):
 				src = voteRegs[rng.Intn(len(voteRegs))]
 			case len(regs) > 0 && rng.Chance(1, 2):
@@ -600,11 +660,50 @@ func (f *ccmFam) Gen(r *hx.Run) {
 					signers, rl = "op", "op"
 				}
 				var proof, hdr []byte
-				if rt, ok := chainRouter[cp.src]; ok && rt != 0 && rng.Bool() {
+				pv := 0
+				h := cp.h
+				if rt, ok := chainRouter[cp.src]; ok && rt == 2 && ethSetup[cp.src] {
+					// the eth router: a real storage proof against the installed header, or a tampered one
+					h = ethGenesisHeight
+					es := f.eth[cp.src]
+					switch x := rng.Intn(12); {
+					case x < 9:
+						proof, pv = es.proofs[hex.EncodeToString(cp.m.raw)], 1
+					case x == 9: // the proof of another message
+						other := pool[rng.Intn(len(pool))]
+						proof = es.proofs[hex.EncodeToString(other.raw)]
+						if string(other.raw) == string(cp.m.raw) {
+							pv = 1
+						}
+					case x == 10: // right proof, wrong height
+						proof = es.proofs[hex.EncodeToString(cp.m.raw)]
+						h = ethGenesisHeight + uint32(rng.Intn(3)) - 1
+						if h == ethGenesisHeight {
+							pv = 1
+						}
+					default: // one proof node corrupted
+						proof = append([]byte{}, es.proofs[hex.EncodeToString(cp.m.raw)]...)
+						if i := strings.Index(string(proof), "storageProof"); i > 0 && i+80 < len(proof) {
+							j := i + 60 + rng.Intn(20)
+							if proof[j] == 'a' {
+								proof[j] = 'b'
+							} else if (proof[j] >= '0' && proof[j] <= '8') || (proof[j] >= 'b' && proof[j] <= 'e') {
+								proof[j]++
+							} else {
+								pv = 1 // left untouched
+							}
+						} else {
+							pv = 1
+						}
+					}
+					if proof == nil { // a message that was not committed in the synthetic state
+						pv = 0
+					}
+				} else if ok && rt != 0 && rng.Bool() {
 					proof, hdr = rng.Bytes(rng.Intn(80)), rng.Bytes(rng.Intn(120))
 				}
 				nonce++
-				res := r.Do(f.importOp(nonce, signers, rl, cp.src, cp.h, proof, hdr, cp.m))
+				res := r.Do(f.importOp(nonce, signers, rl, cp.src, h, proof, hdr, cp.m, pv))
 				rt, isReg := chainRouter[cp.src]
 				cls := "vote"
 				if !isReg {
